@@ -253,6 +253,36 @@ func (gen *generator) addGlobalEntitiesToModule() {
 			panic(fmt.Errorf("support for global %T not yet implemented", v))
 		}
 	}
+	// Unnamed globals are numbered in order of occurrence in the input, whereas
+	// the IR module numbers (and outputs) them grouped by kind; e.g.
+	//
+	//    define void @0() { ... }
+	//    @1 = global i32 0
+	//
+	// Renumber the unnamed globals in output order, so that the module can be
+	// printed. Globals are referred to by pointer, thus no use is affected.
+	id := int64(0)
+	renumber := func(n interface {
+		IsUnnamed() bool
+		SetID(id int64)
+	}) {
+		if n.IsUnnamed() {
+			n.SetID(id)
+			id++
+		}
+	}
+	for _, def := range gen.m.Globals {
+		renumber(def)
+	}
+	for _, def := range gen.m.Aliases {
+		renumber(def)
+	}
+	for _, def := range gen.m.IFuncs {
+		renumber(def)
+	}
+	for _, def := range gen.m.Funcs {
+		renumber(def)
+	}
 }
 
 // addAttrGroupDefsToModule adds IR attribute group definitions to the IR module
